@@ -338,11 +338,11 @@ def check_flux(ctx, viol):
 # filter_thru
 # ----------------------------------------------------------------------------
 
-def gen_filter_job(ctx, small, direction=None, wave=None):
+def gen_filter_job(ctx, small, direction=None, wave=None, cover=None):
     rng = ctx.rng
     nT = rng.randint(1, 3)
     nx = rng.randint(24, 48) if small else rng.randint(300, 1200)
-    kind = rng.choice(['full', 'full', 'blue', 'red', 'outside'])
+    kind = cover or rng.choice(['full', 'full', 'blue', 'red', 'outside'])
     lam_lo, lam_hi = {'full': (3000.0, 11000.0), 'blue': (3000.0, 5200.0), 'red': (6500.0, 11500.0), 'outside': (12000.0, 20000.0)}[kind]
     direction = direction or rng.choice(['blue-to-red', 'blue-to-red', 'red-to-blue'])
     loglam0, dloglam = [], []
@@ -388,8 +388,8 @@ def check_filter(ctx, viol):
     # both storage orders with both kinds of wavelength solution, every run
     for direction in ('blue-to-red', 'red-to-blue'):
         for wave in ('waveimg', 'wset'):
-            jobs.append(gen_filter_job(ctx, True, direction, wave))
-            jobs.append(gen_filter_job(ctx, False, direction, wave))
+            jobs.append(gen_filter_job(ctx, True, direction, wave, 'full'))
+            jobs.append(gen_filter_job(ctx, False, direction, wave, 'full'))
     nb = min(C.NPROC, len(jobs))
     outs = C.run_impl_parallel('c19_impl.py', [jobs[k::nb] for k in range(nb)])
     results = [None] * len(jobs)
